@@ -3,5 +3,5 @@
 R=${2:-/repo}
 T=$(mktemp -d)
 printf '{"Replace":{"%s/pkg/exec/zz_znrun_test.go":"/verif/tools/znrun/znrun_test.go"}}' "$R" > $T/ov.json
-(cd $R && ZNRUN_IN=$(realpath $1) GOFLAGS=-mod=mod GOPROXY=off GOSUMDB=off GOTOOLCHAIN=local timeout 120 go test -overlay $T/ov.json -vet=off -count=1 -timeout 100s -v -run TestZnvcRun ./pkg/exec 2>&1 | grep -E "^ZNRUN|panic:|FAIL|^ok" | head -40)
+(cd $R && ZNRUN_IN=$(realpath $1) GOFLAGS=-mod=mod GOPROXY=off GOSUMDB=off GOTOOLCHAIN=local timeout 120 go test -overlay $T/ov.json -vet=off -count=1 -timeout 100s -v -run TestZnvcRun ./pkg/exec 2>&1 | grep -a -E "^ZNRUN|panic:|FAIL|^ok" | head -40)
 rm -rf $T
